@@ -8,18 +8,19 @@ Shorts == {<<>>, <<0>>, <<26>>, <<65535>>, <<1, 26, 3>>, <<43981, 10, 171, 2748>
 Pci == {[kind |-> "pci", fn |-> f, dev |-> d] : f \in {0, 255}, d \in {0, 31}}
 Acpi == {[kind |-> "acpi", hid |-> h, uid |-> u] : h \in {<<208, 65, 3, 10>>, <<0, 0, 0, 0>>}, u \in {<<0, 0, 0, 0>>, <<255, 255, 255, 255>>}}
 (* partition format (MBR / GPT / other) and signature type (none / 32-bit / GUID) are independent fields *)
-Hd == {[kind |-> "hd", part |-> p, start |-> s, size |-> z, sig |-> "g1", format |-> f, sigtype |-> st] :
+Hd == {[kind |-> "hd", part |-> p, start |-> s, size |-> z, sig |-> sg, format |-> f, sigtype |-> st] :
+         sg \in {"g1", "z0"},       \* z0: a signature whose first bytes are small (leading zero digits in its text)
          p \in {1, 128}, s \in {0, 2048}, z \in {1, 1024000}, f \in {1, 2, 3}, st \in {0, 1, 2}}
 (* long names: a file-path node of 4 + 2(n+1) bytes crosses 256 at n = 125 (node length needs its high byte) *)
 Long(n) == [k \in 1..n |-> 97 + (k % 26)]
-File == {[kind |-> "file", path |-> p] : p \in {<<92, 69, 70, 73>>, <<92>>, <<65, 32, 19968>>, <<128512>>, <<>>, <<92, 49, 48, 48, 37, 92, 97>>, <<37, 115, 37, 100, 37>>, Long(124), Long(125), Long(126), Long(300)}}
+File == {[kind |-> "file", path |-> p] : p \in {<<92, 69, 70, 73>>, <<92>>, <<65, 32, 19968>>, <<128512>>, <<>>, <<92, 49, 48, 48, 37, 92, 97>>, <<37, 115, 37, 100, 37>>, <<92, 65281, 32896, 511, 46, 101>>, Long(124), Long(125), Long(126), Long(300)}}
 Fw == {[kind |-> "fw", name |-> "g2"]}
 Usb == {[kind |-> "usb", port |-> p, iface |-> i] : p \in {0, 255}, i \in {0, 1}}
 Nodes == Pci \cup Acpi \cup Hd \cup File \cup Fw \cup Usb
 Small == {[kind |-> "pci", fn |-> 0, dev |-> 31], [kind |-> "acpi", hid |-> <<208, 65, 3, 10>>, uid |-> <<0, 0, 0, 0>>],
           [kind |-> "hd", part |-> 1, start |-> 2048, size |-> 1024000, sig |-> "g1", format |-> 2, sigtype |-> 2],
           [kind |-> "file", path |-> <<92, 69, 70, 73>>], [kind |-> "fw", name |-> "g2"], [kind |-> "usb", port |-> 255, iface |-> 1]}
-Descs == {<<>>, <<76, 105, 110>>, <<53, 48, 37, 32, 37, 118>>, <<65, 32, 19968>>, <<233, 256>>, <<128512, 65>>, Long(130)}
+Descs == {<<>>, <<76, 105, 110>>, <<65281, 65>>, <<32896, 511>>, <<53, 48, 37, 32, 37, 118>>, <<65, 32, 19968>>, <<233, 256>>, <<128512, 65>>, Long(130)}
 Seqs == {<<>>} \cup {<<a>> : a \in Nodes} \cup {<<a, b>> : a \in Small, b \in Nodes} \cup {<<a, b>> : a \in Nodes, b \in Small}
         \cup (IF Tier = "t" THEN {<<a, b, c>> : a \in Small, b \in Nodes, c \in Small} ELSE {<<a, b, c>> : a \in Small, b \in Small, c \in Small})
 Init == /\ done = FALSE
